@@ -234,13 +234,13 @@ func (x *Exec) pureApp(st *State, name string, f *ssa.Function, c *Contract, arg
 		if a.T.IsZero() {
 			panic(unsupported{"pure function " + name + " called with a cell pointer argument"})
 		}
-		targs = append(targs, a.T)
+		targs = append(targs, x.share(a.T))
 		sorts = append(sorts, a.T.Sort)
 	}
 	mk := func(i int, t types.Type) Val {
 		rs := x.P.sortOf(t)
 		fn := x.declareFun(fmt.Sprintf("fn!%s!%d", name, i), sorts, rs)
-		return Val{T: App(fn, rs, targs...), Ty: t}
+		return Val{T: x.share(App(fn, rs, targs...)), Ty: t}
 	}
 	if tup, ok := rt.(*types.Tuple); ok {
 		if tup.Len() == 0 {
@@ -270,13 +270,38 @@ func (x *Exec) applyContract(st *State, name string, c *Contract, f *ssa.Functio
 		st.allocs += max(c.Allocs, 0)
 		return v
 	}
+	var frozenSt *State
+	frozenBase := 0
+	if len(c.Requires) > 0 && x.c != nil && len(x.c.Frozen) > 0 {
+		// 'frozen' heaps (separation assumption of the function under verification):
+		// the callee's precondition about configuration/request memory is
+		// evaluated in the entry state of those heaps
+		fs := st.clone()
+		for h := range fs.heaps {
+			if x.isFrozen(h) && strings.HasPrefix(h, "E!") {
+				fs.heaps[h] = x.entryHeap(st, h, heapElemSort(h))
+			}
+		}
+		frozenSt = fs
+		frozenBase = len(st.pc)
+		env = x.calleeEnv(fs, c, f, args)
+	}
 	for i, r := range c.Requires {
 		t := x.trBool(env, r.E)
 		lbl := r.Label
 		if lbl == "" {
 			lbl = fmt.Sprintf("pre%d", i)
 		}
+		if frozenSt != nil {
+			for _, f := range frozenSt.pc[frozenBase:] {
+				st.assume(f)
+			}
+			frozenBase = len(frozenSt.pc)
+		}
 		x.addVC(st, "requires", fmt.Sprintf("call/%s/%s@%s", shortName(name), lbl, x.P.pos(pos)), r.Prop, pos, t, r.Src)
+	}
+	if frozenSt != nil {
+		env = x.calleeEnv(st, c, f, args)
 	}
 	if c.Allocs >= 0 {
 		st.allocs += c.Allocs
